@@ -122,3 +122,17 @@ Definition call_ok (tol : Q) (pol : unknown_policy) (vocab : list Z) (c : call_o
   && unknown_ok pol vocab (c_base c)
   && same_b (c_base c) (c_repeat c) && same_b (c_base c) (c_again c)
   && consistent_b tol (c_base c) (c_permuted c) && consistent_b tol (c_base c) (c_a c) && consistent_b tol (c_base c) (c_b c).
+
+(* ---- the caller's inputs read back after every call ----
+   One query object is handed to the base / repeat / permuted / half / again calls.  `hist` is the query's history as
+   (item id, rating) pairs; after each call it is read back and compared with what was supplied.  The flag of an entry
+   stands for everything else the harness compares bit for bit outside Coq: the user identifier, the other history fields
+   and their storage types, the very array objects handed over, and the candidate list (ids, fields, flags, no score). *)
+Definition hist := list (Z * option Q).
+Definition opt_hist_eqb (a b : option hist) : bool :=
+  match a, b with None, None => true | Some x, Some y => same_b x y | _, _ => false end.
+Definition kept_ok (supplied : option hist) (afters : list (option hist * bool)) : bool :=
+  forallb (fun a => snd a && opt_hist_eqb supplied (fst a)) afters.
+Definition call_kept_ok (tol : Q) (pol : unknown_policy) (vocab : list Z) (c : call_obs)
+    (supplied : option hist) (afters : list (option hist * bool)) : bool :=
+  call_ok tol pol vocab c && kept_ok supplied afters.
